@@ -72,7 +72,7 @@ impl<E: ElemT> TableWorld<E> {
     /// payload toggle mask; zero-sized elements cannot store a payload
     const TG: u32 = if E::IS_ZST { 0 } else { TTOGGLE };
     pub fn new(cfg: Config) -> Self {
-        let slots: Vec<TableSlot<E>> = cfg.plans.iter().map(|p| TableSlot { t: Some(HashTable::new_in(SimAlloc)), model: Vec::new(), plan: p.clone() }).collect();
+        let slots: Vec<TableSlot<E>> = cfg.plans.iter().enumerate().map(|(i, p)| TableSlot { t: Some(HashTable::new_in(SimAlloc::of_slot(i))), model: Vec::new(), plan: p.clone() }).collect();
         let n = slots.len();
         if E::IS_ZST {
             sim().probe(Probe::ZeroSized);
@@ -454,7 +454,7 @@ impl<E: ElemT> TableWorld<E> {
         let fc = self.fctx(si, op);
         let out = self.ctx.call(op, move || drop(old));
         let model = std::mem::take(&mut self.slots[si].model);
-        self.slots[si].t = Some(HashTable::new_in(SimAlloc));
+        self.slots[si].t = Some(HashTable::new_in(SimAlloc::of_slot(si)));
         match out {
             Out::Ok(()) => {}
             Out::Fault(Class::Drop) => {
@@ -470,9 +470,9 @@ impl<E: ElemT> TableWorld<E> {
         let calls0 = sim().alloc_calls;
         let want = if op.k == Kd::WithCapacity { op.a.max(0) as usize } else { 0 };
         let nt: STable<E> = match op.k {
-            Kd::WithCapacity => HashTable::with_capacity_in(want, SimAlloc),
+            Kd::WithCapacity => HashTable::with_capacity_in(want, SimAlloc::of_slot(si)),
             Kd::DropSlot => Default::default(),
-            _ => HashTable::new_in(SimAlloc),
+            _ => HashTable::new_in(SimAlloc::of_slot(si)),
         };
         let calls = sim().alloc_calls - calls0;
         let cap = nt.capacity();
@@ -906,7 +906,7 @@ impl<E: ElemT> TableWorld<E> {
 
     fn op_get_many(&mut self, si: usize, op: &Op) -> VResult {
         // v = ids; c: 0 lawful closure, 1 closure matching any element (lying), 2 closure matching by parity
-        let ids: Vec<u32> = op.v.iter().take(4).map(|&x| if E::IS_ZST { 0 } else { x as u32 }).collect();
+        let ids: Vec<u32> = op.v.iter().take(6).map(|&x| if E::IS_ZST { 0 } else { x as u32 }).collect();
         let n = ids.len();
         let lie = op.c.rem_euclid(3);
         let base = (op.b as u32) & !TTOGGLE;
@@ -953,7 +953,9 @@ impl<E: ElemT> TableWorld<E> {
             1 => many!(1),
             2 => many!(2),
             3 => many!(3),
-            _ => many!(4),
+            4 => many!(4),
+            5 => many!(5),
+            _ => many!(6),
         });
         let model = &self.slots[si].model;
         // lawful closure and no duplicate stored ids: we know exactly which entry each request resolves to
@@ -1530,7 +1532,7 @@ impl<E: ElemT> TableWorld<E> {
         }
         let model = std::mem::take(&mut self.slots[si].model);
         let size0 = self.tab(si).allocation_size() as u64;
-        let t = self.slots[si].t.replace(HashTable::new_in(SimAlloc)).unwrap();
+        let t = self.slots[si].t.replace(HashTable::new_in(SimAlloc::of_slot(si))).unwrap();
         let mut owned: Vec<E> = Vec::new();
         let ow = &mut owned;
         let out = self.ctx.call(op, move || {
@@ -1605,7 +1607,7 @@ impl<E: ElemT> TableWorld<E> {
         let src_model = self.slots[si].model.clone();
         let created0 = sim().created;
         let out = if op.k == Kd::CloneTo {
-            let old = self.slots[ti].t.replace(HashTable::new_in(SimAlloc)).unwrap();
+            let old = self.slots[ti].t.replace(HashTable::new_in(SimAlloc::of_slot(ti))).unwrap();
             drop(old);
             self.slots[ti].model.clear();
             fc.before.clear();
